@@ -82,7 +82,8 @@ func Param(name string, def int) int {
 // Symbolic reports whether the code runs under the symbolic executor.
 func Symbolic() bool { return false }
 
-func Byte(tag string) byte   { return byte(next(tag, "b8")) }
+func Byte(tag string) byte { return byte(next(tag, "b8")) }
+
 // ByteIn returns a symbolic byte in [lo,hi].
 func ByteIn(tag string, lo, hi byte) byte { return byte(next(tag, "b8")) }
 
